@@ -119,6 +119,20 @@ fn random_raw(ch: &mut Chooser, len: usize) -> StoredFault {
     }
 }
 
+/// The calls made on an amplified input (each call re-parses the part, so the whole API sweep
+/// would multiply a legitimately long parse by sixty).
+pub fn light_ops() -> Vec<Op> {
+    use crate::wb::SheetArg;
+    let mut v = vec![Op::Meta];
+    for i in 0..4 {
+        v.push(Op::Range(SheetArg::Idx(i)));
+        v.push(Op::Formula(SheetArg::Idx(i)));
+        v.push(Op::MergeCells(SheetArg::Idx(i)));
+    }
+    v.push(Op::LoadMerged);
+    v
+}
+
 pub fn gen(ctx: &mut Ctx, idx: u64) -> RunSpec {
     let l = layout(ctx);
     if idx < l.sweep_total {
@@ -144,7 +158,7 @@ pub fn gen(ctx: &mut Ctx, idx: u64) -> RunSpec {
             entry,
             stored_faults: g.faults.clone(),
             delivery: Delivery::perfect(),
-            ops: vec![Op::Sweep],
+            ops: if g.light { light_ops() } else { vec![Op::Sweep] },
             note: format!("sweep site {} of {}", k / 2, sites.len()),
         };
     }
@@ -166,6 +180,10 @@ pub fn gen(ctx: &mut Ctx, idx: u64) -> RunSpec {
     for k in 0..nf {
         if !sites.is_empty() && ch.chance(7, 10) {
             let g = &sites[ch.below(sites.len() as u64) as usize];
+            if g.light {
+                faults.push(random_raw(&mut ch, fx.bytes.len()));
+                continue;
+            }
             if k == 0 {
                 inner = g.inner.clone();
             }
@@ -220,7 +238,13 @@ pub fn exec_spec(ctx: &mut Ctx, spec: &RunSpec, idx: u64) -> RunResult {
     };
     let clean = ctx.clean_ns(&fx);
     let image = Arc::new(built.image);
-    let limits = Limits::for_input(image.len().max(fx.bytes.len()), crate::c08::cpu_budget(clean) * ctx.cpu_scale);
+    // "time proportional to the input": generated items add 0.3 µs of CPU per byte to the budget (a linear parse needs about a tenth of that)
+    let generated: usize = spec.stored_faults.iter().filter_map(|f| f.edit.as_ref()).map(|e| e.generated()).sum();
+    let extra_ns = if generated > 100_000 { generated as i64 * 300 } else { 0 };
+    let mut limits = Limits::for_input(image.len().max(fx.bytes.len()), (crate::c08::cpu_budget(clean) + extra_ns) * ctx.cpu_scale);
+    // memory and I/O steps proportional to the *decompressed* size for generated items
+    limits.alloc_budget = limits.alloc_budget.saturating_add(generated.saturating_mul(64));
+    limits.max_events = limits.max_events.saturating_add(generated as u64 * 4);
     let ex = execute(image.clone(), spec.entry, spec.delivery.clone(), &spec.ops, limits, &ExecOpts { capture: false, stop_on_panic: true, probes: &built.probes, record_kinds: false });
     let mut violations = Vec::new();
     if let Outcome::Panic(p) = &ex.open {
